@@ -201,6 +201,32 @@ func replaceMachinery(evs []simfs.Event, s0 simfs.Snap) map[string]bool {
 	return m
 }
 
+// publishedStates returns a predicate "this entry of this path is a complete file that was
+// installed atomically": the state a path had immediately after a rename onto it. A multi-step
+// operation may publish a path more than once (multi-fill merge mode replaces and later removes
+// its intermediates); every such state is a complete one, a state reached by writing in place is not.
+func publishedStates(snaps []crashSnap) func(rel string, e simfs.Entry) bool {
+	pub := map[string][]simfs.Entry{}
+	for _, cs := range snaps {
+		if cs.ev.Op != "rename" || cs.ev.Err != "" {
+			continue
+		}
+		for k, e := range cs.snap {
+			if normRel(k) == cs.ev.Path2 {
+				pub[k] = append(pub[k], e)
+			}
+		}
+	}
+	return func(rel string, e simfs.Entry) bool {
+		for _, p := range pub[rel] {
+			if simfs.SameEntry(p, e) {
+				return true
+			}
+		}
+		return false
+	}
+}
+
 func keysOf(m map[string]bool) []string {
 	var kk []string
 	for k := range m {
@@ -265,6 +291,7 @@ func (c02) RunUnit(raw core.Unit, tier string, seed int64) core.UnitResult {
 	}
 	sawRename := false
 	mach := replaceMachinery(r.Events, r.S0)
+	published := publishedStates(snaps)
 	for _, cs := range snaps {
 		res.Evaluations++
 		res.FaultFired["CRASH"]++
@@ -274,7 +301,7 @@ func (c02) RunUnit(raw core.Unit, tier string, seed int64) core.UnitResult {
 		if cs.ev.Op == "rename" {
 			sawRename = true
 		}
-		res.Violations = append(res.Violations, crashOracle(cfg, r.S0, r.S1, cs.snap, cs.ev, mach, nil)...)
+		res.Violations = append(res.Violations, crashOracle(cfg, r.S0, r.S1, cs.snap, cs.ev, mach, published)...)
 	}
 	if sawRename {
 		res.Probes["rename_over_existing_reached"]++
@@ -426,7 +453,7 @@ func (c02) Replay(payload json.RawMessage) ([]core.Violation, error) {
 			for _, d := range simfs.Diff(r.S0, cs.snap) {
 				fmt.Println("   ", d)
 			}
-			vs = append(vs, crashOracle(cfg, r.S0, r.S1, cs.snap, cs.ev, replaceMachinery(r.Events, r.S0), nil)...)
+			vs = append(vs, crashOracle(cfg, r.S0, r.S1, cs.snap, cs.ev, replaceMachinery(r.Events, r.S0), publishedStates(snaps))...)
 		}
 	}
 	if !found {
